@@ -7,6 +7,8 @@ import VK.Model.Transfers
 import VK.Model.Clean
 import VK.Model.Validate
 import VK.Model.Replay
+import VK.Model.Metric
+import VK.Model.BallotGraph
 open Lean VK VK.Codec
 
 def getSTVCfg (j : Json) : D STVCfg := do
@@ -262,6 +264,24 @@ def handle (j : Json) : D Json := do
     let m ← getInt (← field j "m")
     let tb ← getTB (fieldD j "tiebreak" .null)
     pure (jOutcome (fun (_ : Unit) => Json.null) (pluralityVetoValidate p m tb))
+  | "lp" => do
+    let P ← getList getBallot (← field j "P")
+    let Q ← getList getBallot (← field j "Q")
+    let ps ← getList getNat (← field j "ps")
+    pure (Json.mkObj [("ok", Json.mkObj [
+      ("pow", .arr (ps.map (fun p => jRat (lpPow p P Q))).toArray),
+      ("inf", jRat (lInf P Q))])])
+  | "ballot_graph" => do
+    let n ← getNat (← field j "n")
+    pure (Json.mkObj [("ok", Json.mkObj [
+      ("nodes", .arr ((specNodes n).map jCands).toArray),
+      ("edges", .arr ((specEdges n).map (fun e => Json.arr #[jCands e.1, jCands e.2])).toArray)])])
+  | "node_weights" => do
+    let n ← getNat (← field j "n")
+    let fix ← getBool (fieldD j "fix_short" (.bool true))
+    let bs ← getList (getPair getCands getRat) (← field j "ballots")
+    let nw := (nodeWeights n fix bs).filter (fun x => x.2 ≠ 0)
+    pure (Json.mkObj [("ok", .arr (nw.map (fun x => Json.arr #[jCands x.1, jRat x.2])).toArray)])
   | "pairwise" => do
     let p ← getProfile (← field j "profile")
     let d := pairwiseDict p
